@@ -9,7 +9,9 @@ import (
 )
 
 // Accessor for the C16 harness (vh_stressroute).  Unexported names touched:
-// DirectTransmission.{eventBatches, batchMutex, sendBatch}, transmitKey, eventBatch.{mutex, events}.
+// DirectTransmission.{eventBatches, batchMutex, sendBatch}, eventBatch.{mutex, events}.
+// The batch map's key type is not named and its fields are not read: a batch is identified by
+// the destination its first waiting event carries.
 
 // VerifStressrouteKey is a batch key as EnqueueEvent computes it at enqueue time.
 type VerifStressrouteKey struct{ APIHost, APIKey, Dataset string }
@@ -20,46 +22,48 @@ type VerifStressrouteKey struct{ APIHost, APIKey, Dataset string }
 // order given (batches not listed follow in sorted key order and are reported), so that "a batch is
 // dispatched" is a step the harness schedules.  Returns the number of events handed to sendBatch.
 func VerifStressrouteDispatch(d *DirectTransmission, order []VerifStressrouteKey) (events int, unlisted []VerifStressrouteKey) {
-	listed := map[transmitKey]bool{}
-	var keys []transmitKey
-	for _, k := range order {
-		tk := transmitKey{apiHost: k.APIHost, apiKey: k.APIKey, dataset: k.Dataset}
-		if !listed[tk] {
-			listed[tk] = true
-			keys = append(keys, tk)
-		}
+	type held struct {
+		key   VerifStressrouteKey
+		batch *eventBatch
 	}
-	var rest []transmitKey
+	var waiting []held
 	d.batchMutex.RLock()
-	for k, b := range d.eventBatches {
+	for _, b := range d.eventBatches {
 		b.mutex.Lock()
-		n := len(b.events)
-		b.mutex.Unlock()
-		if !listed[k] && n > 0 {
-			rest = append(rest, k)
+		if len(b.events) > 0 {
+			e := b.events[0]
+			waiting = append(waiting, held{VerifStressrouteKey{e.APIHost, e.APIKey, e.Dataset}, b})
 		}
+		b.mutex.Unlock()
 	}
 	d.batchMutex.RUnlock()
-	sort.Slice(rest, func(i, j int) bool {
-		a, b := rest[i], rest[j]
-		if a.apiHost != b.apiHost {
-			return a.apiHost < b.apiHost
+	less := func(a, b VerifStressrouteKey) bool {
+		if a.APIHost != b.APIHost {
+			return a.APIHost < b.APIHost
 		}
-		if a.apiKey != b.apiKey {
-			return a.apiKey < b.apiKey
+		if a.APIKey != b.APIKey {
+			return a.APIKey < b.APIKey
 		}
-		return a.dataset < b.dataset
-	})
-	for _, k := range rest {
-		unlisted = append(unlisted, VerifStressrouteKey{k.apiHost, k.apiKey, k.dataset})
+		return a.Dataset < b.Dataset
 	}
-	for _, k := range append(keys, rest...) {
-		d.batchMutex.RLock()
-		batch, exists := d.eventBatches[k]
-		d.batchMutex.RUnlock()
-		if !exists {
-			continue
+	sort.SliceStable(waiting, func(i, j int) bool { return less(waiting[i].key, waiting[j].key) })
+	taken := make([]bool, len(waiting))
+	var seq []*eventBatch
+	for _, k := range order {
+		for i, w := range waiting {
+			if !taken[i] && w.key == k {
+				taken[i] = true
+				seq = append(seq, w.batch)
+			}
 		}
+	}
+	for i, w := range waiting {
+		if !taken[i] {
+			unlisted = append(unlisted, w.key)
+			seq = append(seq, w.batch)
+		}
+	}
+	for _, batch := range seq {
 		batch.mutex.Lock()
 		var evs []*types.Event
 		if len(batch.events) > 0 {
